@@ -880,6 +880,11 @@ def havoc_frame(E, c, st, pre, h_pre):
 
 
 def set_seq(E, st, r, n, items):
+    # keep heap terms small and pattern-friendly: name the new element array
+    if not z3.is_const(items):
+        named = z3.Const(fresh_name("items"), items.sort())
+        st.assume(named == items)
+        items = named
     st.heap["$len"] = z3.Store(E.heap(st, "$len"), r, n)
     st.heap["$items"] = z3.Store(E.heap(st, "$items"), r, items)
     st.written.add("$len"); st.written.add("$items")
@@ -963,7 +968,7 @@ def verify(E, c, fnode=None, body=None, module=None):
         for nm, f in c.requires(pre):
             st.assume(f)
     # cover: the precondition must be satisfiable (vacuity guard)
-    E.covers.append((c.key, [a for _, a in E.reg.axioms] + list(st.pc)))
+    E.covers.append((c.key, E.axioms_for(c) + list(st.pc)))
     outs = E.exec_block(body, st)
     E.npaths += len(outs)
     for o in outs:
